@@ -204,6 +204,23 @@ func runC20(c *fw.Check) {
 			}
 		}
 	}
+	// 3b. ALL pairs of the numbers 0..1100 (and with leading zeros 0..110) in two contexts:
+	// numeric order, zeros as tie-break.
+	var ns []string
+	for i := 0; i <= 1100; i++ {
+		ns = append(ns, fmt.Sprint(i))
+	}
+	fw.ParallelFor(len(ns), func(i int) {
+		for j := range ns {
+			for _, ctx := range [][2]string{{"", ""}, {"t", ".x"}} {
+				a, b := ctx[0]+ns[i]+ctx[1], ctx[0]+ns[j]+ctx[1]
+				if got := vexport.NatLess(a, b); got != (i < j) {
+					c.Violation("natsort/numeric-run", c20case{Kind: "numeric", A: a, B: b, Want: fmt.Sprint(i < j)})
+				}
+			}
+		}
+		c.DistinctN(int64(2 * len(ns)))
+	})
 	// 4. permutations of top-level definitions.
 	c20modules(c, maxDefs)
 	// 5. rotations / reversal / adjacent swaps of the fragments of generated modules.
